@@ -64,6 +64,7 @@ var targets = []target{
 	{"simple_tree_walker.go", "WalkerNode.HasChild"},
 	{"tree_handler_programmably.go", "validateTreeRoot"},
 	{"node.go", "Node.isDirectlyUnder"},
+	{"node.go", "Node.setBranch"},
 }
 
 // struct types that are handled through pointers which the translated functions never find nil (a nil
@@ -148,6 +149,10 @@ func goTypeToLean(t *tr, e ast.Expr) (string, bool) {
 			if el, ok := goTypeToLean(t, x.Elt); ok {
 				return "List " + el, true
 			}
+		}
+	case *ast.Ellipsis:
+		if el, ok := goTypeToLean(t, x.Elt); ok {
+			return "List " + el, true // a variadic parameter is the slice of its arguments
 		}
 	}
 	return "", false
@@ -364,6 +369,11 @@ func (t *tr) computeMutates() {
 						if se, ok := l.(*ast.SelectorExpr); ok {
 							if idt, ok := se.X.(*ast.Ident); ok && idt.Name == f.rname {
 								m = true
+							}
+							if in, ok := se.X.(*ast.SelectorExpr); ok {
+								if idt, ok := in.X.(*ast.Ident); ok && idt.Name == f.rname {
+									m = true
+								}
 							}
 						}
 					}
@@ -935,6 +945,9 @@ func (t *tr) block(sc *scope, stmts []ast.Stmt, ind string) string {
 		if sc.inLoop {
 			return ind + "Go.Ctl.next " + tuple(sc.state) + "\n"
 		}
+		if sc.fn.decl.Type.Results == nil || len(sc.fn.decl.Type.Results.List) == 0 {
+			return ind + t.retExpr(sc, nil) + "\n" // the end of a function without results
+		}
 		return ind + t.fail(sc.fn.decl.End(), "control reaches the end of %s without a return", sc.fn.name) + "\n"
 	}
 	s, rest := stmts[0], stmts[1:]
@@ -1115,8 +1128,16 @@ func (t *tr) block(sc *scope, stmts []ast.Stmt, ind string) string {
 		var collExpr string
 		switch cx := x.X.(type) {
 		case *ast.Ident:
-			if t.slices[cx.Name] == nil {
-				return ind + t.fail(x.Pos(), "range over something that is not a package-level slice of strings or a slice field") + "\n"
+			isParam := false
+			for _, p := range sc.fn.decl.Type.Params.List {
+				for _, n := range p.Names {
+					if n.Name == cx.Name {
+						isParam = true
+					}
+				}
+			}
+			if t.slices[cx.Name] == nil && !isParam {
+				return ind + t.fail(x.Pos(), "range over something that is not a package-level slice of strings, a slice parameter or a slice field") + "\n"
 			}
 			collExpr = id(cx.Name)
 		case *ast.SelectorExpr:
@@ -1281,6 +1302,12 @@ func (t *tr) assign(sc *scope, x *ast.AssignStmt, ind string) string {
 		case *ast.SelectorExpr:
 			p, ok := lv.X.(*ast.Ident)
 			if !ok {
+				// one level of nesting: n.brnch.value = e
+				if inner, ok := lv.X.(*ast.SelectorExpr); ok {
+					if base, ok := inner.X.(*ast.Ident); ok {
+						return ind + "let " + id(base.Name) + " := { " + id(base.Name) + " with " + id(inner.Sel.Name) + " := { " + id(base.Name) + "." + id(inner.Sel.Name) + " with " + id(lv.Sel.Name) + " := " + rhs + " } }\n"
+					}
+				}
 				return ind + t.fail(x.Pos(), "assignment target") + "\n"
 			}
 			return ind + "let " + id(p.Name) + " := { " + id(p.Name) + " with " + id(lv.Sel.Name) + " := " + rhs + " }\n"
